@@ -765,34 +765,45 @@ bool XmlElement::GetAttr(const string& what, string& target) const
 //-----------------------------------------------------------------------------------------
 const string& XmlElement::InplaceXlate (string& what)
 {
+	// single pass, left to right: text produced by a reference is not scanned again (&amp;lt; is "&lt;", not "<")
 	RegMatch match;
-	while (rCX_.SearchString(match, what, 2) == 2)
+	string result;
+	for (string::size_type pos(0); pos < what.size();)
 	{
-		string whatv;
-		rCX_.SubExpr(match, what, whatv, 0, 1);
-		const auto sitr(stringtochar_.find(whatv));
-		rCX_.Replace(match, what, sitr == stringtochar_.cend() ? '?' : sitr->second); // not found character entity replaces string with '?'
-	}
-
-	while (rCE_.SearchString(match, what, 2) == 2)	// translate Numeric character references &#x12d; or &#12;
-	{
-		string whatv;
-		rCE_.SubExpr(match, what, whatv, 0, 1);
-		istringstream istr(whatv);
-		int value;
-		if (whatv[0] == 'x')
+		if (what[pos] == '&')
 		{
-			istr.ignore();
-			istr >> hex >> value;
+			const string rest(what.substr(pos));
+			string whatv;
+			if (rCX_.SearchString(match, rest, 2) == 2 && match.SubPos() == 0)
+			{
+				rCX_.SubExpr(match, rest, whatv, 0, 1);
+				const auto sitr(stringtochar_.find(whatv));
+				result += sitr == stringtochar_.cend() ? '?' : sitr->second; // not found character entity replaces string with '?'
+				pos += match.SubSize();
+				continue;
+			}
+			if (rCE_.SearchString(match, rest, 2) == 2 && match.SubPos() == 0)	// translate Numeric character references &#x12d; or &#12;
+			{
+				rCE_.SubExpr(match, rest, whatv, 0, 1);
+				istringstream istr(whatv);
+				int value;
+				if (whatv[0] == 'x')
+				{
+					istr.ignore();
+					istr >> hex >> value;
+				}
+				else
+					istr >> dec >> value;
+				if (value & 0xff00)	// handle hi byte
+					result += static_cast<char>(value >> 8 & 0xff);
+				result += static_cast<char>(value & 0xff);
+				pos += match.SubSize();
+				continue;
+			}
 		}
-		else
-			istr >> dec >> value;
-		string oval;
-		if (value & 0xff00)	// handle hi byte
-			oval += static_cast<char>(value >> 8 & 0xff);
-		oval += static_cast<char>(value & 0xff);
-		rCE_.Replace(match, what, oval);
+		result += what[pos++];
 	}
+	what.swap(result);
 
 	if (!(flags_ & noextensions))
 	{
